@@ -287,7 +287,12 @@ def ones_like(
 
     :param dtype: Overrides the dtype of the
     """
-    return zeros_like(a, dtype, shape) + 1
+    zeros = zeros_like(a, dtype, shape)
+    if isinstance(zeros, Array) and zeros.dtype == np.bool_:
+        # (a Boolean array plus the integer 1 would be an integer array)
+        from pytato.array import equal
+        return equal(zeros, zeros)
+    return zeros + 1
 
 
 # vim: fdm=marker
